@@ -119,7 +119,8 @@ def run(P: Program, R: Report, tier: str) -> None:
         "candidate-graph package: a loop-carried source variable must be redefined on every path "
         "through an iteration; plus agreement of the frame keys used by the sibling functions."
     )
-    R.decides += ["frames without detections cannot leave a stale 'previous frame' node set or KD-tree behind (no link across a gap, no missing link after it)"]
+    R.decides += ["frames without detections cannot leave a stale 'previous frame' node set or KD-tree behind (no link across a gap, no missing link after it)",
+                  "the builders hand the caller's own container and scale to the extractors (no crop, no re-ordering, no dropped scale); a node's time attribute is the frame it is filed under"]
     R.not_decided += ["the distance predicate, centroids and IoU values (runtime values)"]
     fns = [f for f in P.functions.values() if ".candidate_graph." in f.qname and f.parent is None]
     R.floor("R18.1", "candidate-graph functions", len(fns), 6)
@@ -196,3 +197,230 @@ def run(P: Program, R: Report, tier: str) -> None:
     if len(ks) != 1:
         raise AnalysisError(f"IoU kernel of the candidate-graph package: found {len(ks)}")
     labels_are_names(P, R, ks[0], "R18.4")
+    callers_container(P, R, "R18.5")
+    scale_default_only_for_none(P, R, "R18.6")
+    time_is_frame_index(P, R, "R18.7")
+
+
+# ---------------------------------------------------------------------------------------------------------------------
+# R18.5 - R18.7: the graph is about the CALLER's container (also used as R19.4 / R19.5)
+
+def _builders(P: Program):
+    """(builder, call, extractor) for every top-level function of the candidate-graph package that hands a parameter of
+    its own to a `nodes_from_*` extractor of the package"""
+    out = []
+    for f in P.functions.values():
+        if ".candidate_graph." not in f.qname or f.parent is not None or f.name.startswith("nodes_from_"):
+            continue
+        for c in ast.walk(f.node):
+            if isinstance(c, ast.Call) and isinstance(c.func, ast.Name) and c.func.id.startswith("nodes_from_"):
+                g = P.functions.get(P.resolve_name(f.module, c.func.id) or "")
+                if g is not None:
+                    out.append((f, c, g))
+    return out
+
+
+def callers_container(P: Program, R: Report, rule: str, only_seg: bool = False) -> None:
+    """The builders hand their caller's container itself to the node extractor (and to the IoU pass): node ids are row
+    indices of the caller's list, node times are frame indices of the caller's array; cropping / sorting / filtering
+    before extraction gives a self-consistent graph about another container."""
+    from .provenance import bound_args, classify
+
+    bs = _builders(P)
+    if not bs:
+        R.undecided(rule, "candidate_graph", "", "builders hand the caller's container to the node extractor", "no builder found")
+        return
+    for f, c, g in bs:
+        ba = bound_args(g, c)
+        gparams = [p for p in g.params]
+        if not gparams:
+            continue
+        first = gparams[0]
+        if only_seg and "seg" not in first:
+            continue
+        todo = [(first, "container")]
+        if not only_seg and "scale" in gparams:
+            todo.append(("scale", "scale"))
+        for pname, what in todo:
+            a = ba.get(pname)
+            label = f"{f.name}: the caller's {what} reaches {g.name} unchanged"
+            if a is None:
+                if what == "scale" and "scale" in f.params:
+                    R.fail(rule, f, c, label, f"`{norm(c)[:80]}` does not pass the scale on: positions (and areas) stay in pixel units while the maximum distance is in world units")
+                continue
+            v, why = classify(P, f, a, c.lineno)
+            if v == "ident":
+                R.ok(rule, f, c, label, f"`{norm(a)}` is the parameter `{why}`", via="provenance")
+            elif v == "bad":
+                R.fail(rule, f, c, label, f"{why}: the graph describes another {what} than the one the caller holds (node ids / times are indices into the handed-on one)")
+            else:
+                R.undecided(rule, f, c, label, why)
+        # a later pass over the same container (IoU) gets the same object as the extractor
+        for c2 in ast.walk(f.node):
+            if isinstance(c2, ast.Call) and isinstance(c2.func, ast.Name) and c2 is not c and not c2.func.id.startswith("nodes_from_"):
+                h = P.functions.get(P.resolve_name(f.module, c2.func.id) or "")
+                if h is None or ".candidate_graph." not in h.qname:
+                    continue
+                for hp, a2 in bound_args(h, c2).items():
+                    if "seg" in hp:
+                        v1 = classify(P, f, ba.get(first), c.lineno) if ba.get(first) is not None else ("unknown", "")
+                        v2 = classify(P, f, a2, c2.lineno)
+                        label = f"{f.name}: {h.name} reads the same array the nodes were extracted from"
+                        if v2[0] == "bad":
+                            R.fail(rule, f, c2, label, v2[1])
+                        elif v1[0] == "ident" and v2[0] == "ident":
+                            R.check(v1[1] == v2[1], rule, f, c2, label, f"extractor got `{v1[1]}`, {h.name} gets `{v2[1]}`", via="provenance")
+                        else:
+                            R.undecided(rule, f, c2, label, v2[1] or v1[1])
+
+
+def scale_default_only_for_none(P: Program, R: Report, rule: str) -> None:
+    """`scale=None` means unit spacing.  A scale the caller DID give is never replaced: a re-binding of the parameter
+    is reached only under `scale is None`."""
+    from .util import guards_of
+
+    n = 0
+    for g in P.functions.values():
+        if ".candidate_graph." not in g.qname or g.parent is not None or "scale" not in g.params:
+            continue
+        for s_ in ast.walk(g.node):
+            tg = s_.targets if isinstance(s_, ast.Assign) else [s_.target] if isinstance(s_, (ast.AugAssign, ast.AnnAssign)) and getattr(s_, "value", None) is not None else []
+            if not any(isinstance(t, ast.Name) and t.id == "scale" for t in tg):
+                continue
+            n += 1
+            gs = [x.replace(" ", "") for x in guards_of(g, s_)]
+            label = f"{g.name}: a scale given by the caller is never replaced"
+            val = s_.value
+            mentions = any(isinstance(x, ast.Name) and x.id == "scale" for x in ast.walk(val))
+            if gs == ["scaleisNone"] or gs == ["not(scaleisnotNone)"]:
+                R.ok(rule, g, s_, label, "re-bound only under `scale is None`", via="dominating-guard")
+            elif mentions and isinstance(val, ast.Call) and isinstance(val.func, ast.Name) and P.functions.get(P.resolve_name(g.module, val.func.id) or "") is not None:
+                # `scale = _resolve(scale, ..)`: the helper returns its parameter, or a default under `<param> is None` only
+                h = P.functions[P.resolve_name(g.module, val.func.id)]
+                from .provenance import bound_args
+
+                hp = next((p_ for p_, a_ in bound_args(h, val).items() if norm(a_) == "scale"), None)
+                verdict = "ok" if hp else "unknown"
+                why = ""
+                for r_ in [x for x in ast.walk(h.node) if isinstance(x, ast.Return) and x.value is not None] if hp else []:
+                    if norm(r_.value) in (hp, f"list({hp})", f"tuple({hp})"):
+                        continue
+                    hg = [x.replace(" ", "") for x in guards_of(h, r_)]
+                    if hg in ([f"{hp}isNone"], [f"not({hp}isnotNone)"]):
+                        continue
+                    if isinstance(r_.value, ast.IfExp) and norm(r_.value.test).replace(" ", "") in (f"{hp}isNone", f"{hp}isnotNone"):
+                        continue
+                    if not any(f"{hp}isNone" in x for x in hg) and not any(isinstance(x, ast.Name) and x.id == hp for x in ast.walk(r_.value)):
+                        verdict, why = "bad", f"{h.name} returns `{norm(r_.value)[:40]}` under {hg or 'no condition'}"
+                    elif verdict != "bad":
+                        verdict, why = "unknown", f"{h.name}: `return {norm(r_.value)[:40]}` under {hg}"
+                if verdict == "ok":
+                    R.ok(rule, g, s_, label, f"{h.name} hands the given scale back and substitutes the default only for None", via="dominating-guard")
+                elif verdict == "bad":
+                    R.fail(rule, g, s_, label, why + ": a non-None scale is thrown away - positions and areas stay in pixel units")
+                else:
+                    R.undecided(rule, g, s_, label, why or "helper not recognised")
+            elif isinstance(val, ast.IfExp) and norm(val.test).replace(" ", "") in ("scaleisNone", "scaleisnotNone"):
+                R.ok(rule, g, s_, label, "default chosen by `scale is None`", via="dominating-guard")
+            elif mentions:
+                from .provenance import classify
+
+                v_, why_ = classify(P, g, val, s_.lineno)
+                if v_ == "ident":
+                    R.ok(rule, g, s_, label, f"`{norm(val)[:40]}` keeps the given scale", via="provenance")
+                else:
+                    R.undecided(rule, g, s_, label, why_)
+            elif not any("scaleisNone" in x or "notscale" in x for x in gs) or any("or" in x.replace("scaleisNone", "") and "scaleisNone" in x for x in gs):
+                R.fail(rule, g, s_, label, f"`{norm(s_)[:70]}` runs under {gs or 'no condition'}: a non-None scale (for example an isotropic, non-unit pixel size) is "
+                       "thrown away - positions and areas stay in pixel units, and are compared with a maximum distance in world units")
+            else:
+                R.undecided(rule, g, s_, label, f"guards {gs} not recognised")
+        # the per-frame measurement receives the spatial part of the scale
+        for c in ast.walk(g.node):
+            if isinstance(c, ast.Call) and (call_name(c) or "").startswith("regionprops"):
+                sp = next((k.value for k in c.keywords if k.arg == "spacing"), None)
+                label = f"{g.name}: centroids and areas are measured with the spatial part of the scale"
+                if sp is None:
+                    R.fail(rule, g, c, label, f"`{norm(c)[:70]}` has no spacing: centroids and areas are in pixel units")
+                else:
+                    from ..resolve import Resolver
+
+                    t = Resolver(P, g).text(sp).replace(" ", "")
+                    if "scale[1:]" in t:
+                        R.ok(rule, g, c, label, f"spacing = `{t[:50]}`", via="dataflow")
+                    elif "scale" not in t:
+                        R.fail(rule, g, c, label, f"spacing `{t[:50]}` does not come from the scale")
+                    else:
+                        R.undecided(rule, g, c, label, f"spacing `{t[:50]}` not recognised")
+    if n == 0:
+        R.ok(rule, "candidate_graph", "", "no extractor re-binds its scale parameter", via="syntax")
+
+
+def time_is_frame_index(P: Program, R: Report, rule: str, only_seg: bool = False) -> None:
+    """A node's time attribute is the key under which it is filed in node_frame_dict (edges are built between the
+    dict's keys t and t + 1, consumers read the attribute); for the segmentation extractor both are the index of the
+    frame in the caller's array - the relabelling utility indexes the array with it."""
+    from ..resolve import Resolver
+
+    for g in P.functions.values():
+        if ".candidate_graph." not in g.qname or g.parent is not None or not g.name.startswith("nodes_from_"):
+            continue
+        if only_seg and "seg" not in g.params[0]:
+            continue
+        rs = Resolver(P, g)
+        # the time attribute
+        tvals = []
+        for d in ast.walk(g.node):
+            if isinstance(d, ast.Dict):
+                for k, v in zip(d.keys, d.values, strict=True):
+                    if k is not None and rs.text(k).strip("'\"") in ("time", "NodeAttr.TIME.value"):
+                        tvals.append((d, v))
+            if isinstance(d, ast.Assign) and isinstance(d.targets[0], ast.Subscript) and rs.text(d.targets[0].slice).strip("'\"") in ("time", "NodeAttr.TIME.value"):
+                tvals.append((d, d.value))
+            if isinstance(d, ast.Call) and call_name(d) == "add_node":
+                for k in d.keywords:
+                    if k.arg == "time":
+                        tvals.append((d, k.value))
+        keys = []
+        for s_ in ast.walk(g.node):
+            if isinstance(s_, ast.Subscript) and isinstance(s_.ctx, ast.Store) and norm(s_.value) == "node_frame_dict":
+                keys.append(s_.slice)
+            if isinstance(s_, ast.Call) and isinstance(s_.func, ast.Attribute) and s_.func.attr == "setdefault" and norm(s_.func.value) == "node_frame_dict" and s_.args:
+                keys.append(s_.args[0])
+        label = f"{g.name}: a node's time attribute is the frame it is filed under"
+        if not tvals or not keys:
+            R.undecided(rule, g, g.node, label, "time attribute or frame dictionary write not found")
+            continue
+        for d, v in tvals:
+            tv = norm(v)
+            kt = {norm(k) for k in keys}
+            if kt == {tv}:
+                R.ok(rule, g, d, label, f"both are `{tv}`", via="sibling-agreement")
+            elif isinstance(v, ast.BinOp) and any(norm(x) in kt for x in ast.walk(v)):
+                R.fail(rule, g, d, label, f"time attribute is `{tv}` but the node is filed under `{sorted(kt)[0]}`: consumers that index the array (or the frame "
+                       "dictionary) with the attribute look into another frame")
+            else:
+                R.undecided(rule, g, d, label, f"attribute `{tv}`, keys {sorted(kt)}")
+        if "seg" in g.params[0]:
+            # the frame index: loop variable of range(len(seg)) / range(seg.shape[0]) / enumerate(seg), and the frame measured is seg[t]
+            seg = g.params[0]
+            lv = None
+            for lp in ast.walk(g.node):
+                if isinstance(lp, ast.For):
+                    it = norm(lp.iter).replace("tqdm(", "")
+                    if isinstance(lp.target, ast.Name) and (f"range(len({seg}))" in it or f"range({seg}.shape[0])" in it):
+                        lv = lp.target.id
+                    elif isinstance(lp.target, ast.Tuple) and f"enumerate({seg}" in it and "start" not in it and isinstance(lp.target.elts[0], ast.Name):
+                        lv = lp.target.elts[0].id
+            label = f"{g.name}: the time attribute is the index of the frame in the caller's array"
+            if lv is None:
+                R.undecided(rule, g, g.node, label, "frame loop not recognised")
+                continue
+            for d, v in tvals:
+                tv = rs.text(v)
+                if tv in (lv, f"int({lv})"):
+                    R.ok(rule, g, d, label, f"`{tv}` is the loop variable of the frame loop", via="dataflow")
+                elif isinstance(v, ast.BinOp) or (isinstance(rs.expand(v), ast.BinOp)):
+                    R.fail(rule, g, d, label, f"time is `{tv}`, not the frame index `{lv}`: relabel_segmentation_with_track_id and the IoU pass index the array with it")
+                else:
+                    R.undecided(rule, g, d, label, f"time is `{tv}`")
